@@ -38,6 +38,8 @@ class Opts:
         self.symbolic_rep = 0.6
         self.mult_resources = True
         self.mult_under_any_rep = False
+        self.p_create_links = 0.3
+        self.size_thresholds = (0.3, 0.55, 0.65)   # unsized | fresh symbol | repeated symbol | (constant/compound when the incoming size is known)
         self.qubit_mode = False     # generate local_ancillae / positive sizes for the highwater property
         self.__dict__.update(kw)
 
@@ -309,10 +311,11 @@ def _assign_sizes(rng, node, opts, incoming_known, is_root):
             continue
         r = rng.random()
         fault = rng.random() < opts.p_fault_size
-        if r < 0.3:
+        th = opts.size_thresholds
+        if r < th[0]:
             p["size"] = None
             known[p["name"]] = E.sym("#" + p["name"])
-        elif r < 0.55:
+        elif r < th[1]:
             free = [s for s in POOL + ["S", "W"] if s not in scope and s not in used_syms]
             if not free:
                 p["size"] = None
@@ -322,7 +325,7 @@ def _assign_sizes(rng, node, opts, incoming_known, is_root):
                 used_syms[s] = p["name"]
                 p["size"] = E.sym(s)
                 known[p["name"]] = E.sym(s)
-        elif r < 0.65 and used_syms:
+        elif r < th[2] and used_syms:
             # repeated symbol: consistent only if both wires carry the same size
             s = rng.choice(list(used_syms))
             p["size"] = E.sym(s)
@@ -336,9 +339,8 @@ def _assign_sizes(rng, node, opts, incoming_known, is_root):
             # compound / param-symbol size expressed over this node's own parameters
             sz = inc
             if fault:
-                sz = E.bin_("+", sz, E.num(1))
-            if sz[0] == "sym" and rng.random() < 0.5:
-                sz = E.bin_("+", sz, E.num(0)) if False else sz
+                # a contradiction: always different (+1), or different for most but not all assignments
+                sz = E.bin_("+", sz, E.num(1)) if rng.random() < 0.5 else gen_poly(rng, list(node["input_params"]), 1, positive=True)
             p["size"] = sz
             known[p["name"]] = sz
         else:
@@ -366,7 +368,7 @@ def _assign_sizes(rng, node, opts, incoming_known, is_root):
         for (s, t) in node["connections"]:
             if t[0] == cn:
                 k = src_known(s)
-                inc_child[t[1]] = _translate_down(k, node, ch)
+                inc_child[t[1]] = _translate_down(k, node, ch, rng, opts.p_create_links)
         _assign_sizes(rng, ch, opts, inc_child, False)
         for p in ch["ports"]:
             if p["direction"] == "output":
@@ -419,13 +421,14 @@ def _topo_children(node):
     return out
 
 
-def _translate_down(k, parent, child):
+def _translate_down(k, parent, child, rng=None, create=0.0):
     """Express a size known in the parent's scope in the child's scope, if every symbol of it reaches the
-    child through a direct link; otherwise unknown."""
+    child through a direct link; with probability `create` missing links (and child parameters) are created;
+    otherwise unknown."""
     if k is None:
         return None
     sigma = {}
-    for s in E.fv(k):
+    for s in sorted(E.fv(k)):
         tgt = None
         for src, ts in parent["linked_params"]:
             if src == s:
@@ -433,7 +436,22 @@ def _translate_down(k, parent, child):
                     if path == child["name"]:
                         tgt = prm
         if tgt is None:
-            return None
+            declared_in_parent = s in parent["input_params"] or s in [v for v, _ in parent["local_variables"]]
+            if rng is None or not declared_in_parent or rng.random() >= create or child["repetition"] is not None:
+                return None
+            taken = set(child["input_params"]) | {v for v, _ in child["local_variables"]} | set(child.get("_scope", []))
+            free = [x for x in POOL + ["P", "R"] if x not in taken]
+            if not free:
+                return None
+            tgt = rng.choice(free)
+            child["input_params"].append(tgt)
+            child.setdefault("_scope", []).append(tgt)
+            for i, (src, ts) in enumerate(parent["linked_params"]):
+                if src == s:
+                    ts.append((child["name"], tgt))
+                    break
+            else:
+                parent["linked_params"].append((s, [(child["name"], tgt)]))
         sigma[s] = E.sym(tgt)
     return E.subst(k, sigma)
 
